@@ -163,7 +163,7 @@ func (g *G) WideTree(maxDepth, maxFan int) *xdoc.Doc {
 		}
 	}
 	top := d.Root.AddElem("", "r", "")
-	for len(top.Children) < 3 {
+	for len(top.Children) < 3 && budget > 0 { // (budget exhausted below two deep children: the document stays as it is)
 		fill(top, 1)
 	}
 	return d.Finish()
